@@ -132,16 +132,25 @@ def run(ctx):
                     continue
                 torch.manual_seed(rng.randrange(10 ** 6))
                 wl = [0.6, 0.5, 0.45]
-                prop = LW.propagator(resolution=[h, w], wavelengths=wl, pixel_pitch=dx, number_of_frames=3, number_of_depth_layers=2,
-                                     volume_depth=2.0, image_location_offset=1.0, propagation_type='Bandlimited Angular Spectrum',
-                                     propagator_type='forward', method=method, device=torch.device('cpu'))
+                # Fourier-plane aperture: the default circular mask or a user-supplied apodised (non-binary) pinhole; both propagator types
+                apk = rng.choice(['default', 'apodised'])
+                ptype = rng.choice(['forward', 'back and forth'])
+                yy, xx = np.meshgrid(np.arange(h) - h // 2, np.arange(w) - w // 2, indexing='ij')
+                apt = None if apk == 'default' else torch.tensor(np.exp(-(xx ** 2 + yy ** 2) / (0.35 * min(h, w)) ** 2), dtype=torch.float32)
+
+                def make_prop():
+                    return LW.propagator(resolution=[h, w], wavelengths=wl, pixel_pitch=dx, number_of_frames=3, number_of_depth_layers=2,
+                                         volume_depth=2.0, image_location_offset=1.0, propagation_type='Bandlimited Angular Spectrum',
+                                         propagator_type=ptype, back_and_forth_distance=1.5, aperture=apt, method=method, device=torch.device('cpu'))
+                prop = make_prop()
                 targets = torch.rand(2, 3, h, w)
                 opt = LW.multi_color_hologram_optimizer(wavelengths=wl, resolution=[h, w], targets=targets, propagator=prop, number_of_frames=3,
                                                        number_of_depth_layers=2, learning_rate=0.02, double_phase=bool(rng.random() < 0.5),
                                                        method=method, device=torch.device('cpu'))
-                rec = {'routine': 'multi_color_hologram_optimizer', 'h': h, 'w': w, 'bits': bits, 'method': method}
-                ctx.case(('mc', h, w, bits, method), True, rec if len(ctx.samples) < 6 else None)
+                rec = {'routine': 'multi_color_hologram_optimizer', 'h': h, 'w': w, 'bits': bits, 'method': method, 'aperture': apk, 'propagator_type': ptype}
+                ctx.case(('mc', h, w, bits, method, apk, ptype), True, rec if len(ctx.samples) < 6 else None)
                 ctx.count('multi_color/%d_bits' % bits)
+                ctx.count('multi_color/aperture=%s/%s' % (apk, ptype))
                 try:
                     phases, recon, _, _, _ = opt.optimize(number_of_iterations=2, weights=[1., 1., 1., 0.], bits=bits)
                 except Exception as e:
@@ -157,6 +166,20 @@ def run(ctx):
                 if not torch.allclose(again, recon, atol=1e-5):
                     ctx.violation('multi_color optimiser: returned reconstruction differs from propagator.reconstruct(returned phases)', rec,
                                   {'routine': 'multi_color', 'what': 'reconstruction'})
+                # "exactly what propagating that returned hologram with the same settings produces": a propagator built afresh with the
+                # same settings has no history (the one inside the optimiser has run the whole optimisation loop before the final pass)
+                fresh = make_prop()
+                fresh.channel_power = prop.channel_power.detach().clone() if hasattr(prop, 'channel_power') else None
+                try:
+                    indep = fresh.reconstruct(phases)
+                    scale_r = max(1.0, float(indep.abs().max()))
+                    if indep.shape == recon.shape and float((indep - recon).abs().max()) > 2e-3 * scale_r:
+                        ctx.violation('multi_color optimiser (%s aperture, %s): the returned reconstruction is not what a propagator with the same settings '
+                                      'produces from the returned hologram (max difference %.3g, scale %.3g)'
+                                      % (apk, ptype, float((indep - recon).abs().max()), scale_r), rec,
+                                      {'routine': 'multi_color', 'what': 'reconstruction_vs_fresh', 'aperture': apk})
+                except Exception as e:
+                    ctx.note('fresh propagator could not re-propagate the returned hologram: %r' % (e,))
     if ctx.drv_ok:
         vals = [rng.uniform(-20, 20) for _ in range(200)] + [0.0, 6.283185307179586, 1e-9]
         for bits in (2, 8):
